@@ -219,7 +219,7 @@ class Scenario:
         return None
 
     # ------------------------------------------------------------ running
-    def run_paths(self, on_trial, limit: int = 6000):
+    def run_paths(self, on_trial, limit: int = 6000, extra_hooks: dict | None = None):
         prog = self.prog
         step = prog.lookup_method(self.driver, "step")
         validate = prog.lookup_method(self.driver, "validate_simulation")
@@ -269,6 +269,8 @@ class Scenario:
                 return True
 
             m.hooks["for"] = for_hook
+            for hk, hv in (extra_hooks or {}).items():
+                m.hooks[hk] = hv
             try:
                 m.call_function(validate, [Ref("driver")], {})
                 m.call_function(step, [Ref("driver")], {})
